@@ -18,6 +18,7 @@ MODULE_DEPS = {
     "config": [],
     "semaphore": [],
     "group": ["path"],
+    "dedupe__c08": ["path", "file"],
 }
 
 
@@ -58,6 +59,15 @@ k("c18_execute_move_copy_existing", "dedupe::FsCommand::execute [Move, copy, tar
 k("c06_rf_over_contract", "config::GroupConfig::rf_over [function contract]", module="config", t=300, contract_ob="C06.rf_over.contract")
 k("c06_rf_under_contract", "config::GroupConfig::rf_under [function contract]", module="config", t=300, contract_ob="C06.rf_under.contract")
 k("c06_group_filter", "config::GroupConfig::group_filter (against the contract of rf_over)", module="config", t=300)
+# ---- dedupe.rs, C08 (kani/dedupe__c08.rs)
+k("c08_subgroup_keep_drop_bounded", "dedupe::FileSubGroup::should_keep + FileSubGroup::may_drop", module="dedupe__c08", t=600,
+  cls="bounded", bound="sub-groups of <= 3 paths; path-level pattern decisions arbitrary")
+k("c08_priority_least_nested_bounded", "dedupe::sort_by_priority [LeastNested] + FileSubGroup::min_nesting", module="dedupe__c08", t=900,
+  cls="bounded", bound="3 sub-groups of one path each, nesting 1 or 2")
+k("c08_priority_most_nested_bounded", "dedupe::sort_by_priority [MostNested] + FileSubGroup::max_nesting", module="dedupe__c08", t=900,
+  cls="bounded", bound="3 sub-groups of one path each, nesting 1 or 2")
+k("c08_priority_top_bottom_bounded", "dedupe::sort_by_priority [Top, Bottom]", module="dedupe__c08", t=600,
+  cls="bounded", bound="3 sub-groups of one path each")
 # ---- group.rs
 k("c06_subgroup_count_match_links_bounded", "group::FileGroup::subgroup_count + FileSubGroup::group [--match-links]", module="group", t=1200,
   cls="bounded", bound="<= 3 files, 2 isolated roots, every placement of the files under/outside the roots")
@@ -146,7 +156,8 @@ PROPS = {
         design_ref="DESIGN.md §5 C02",
     ),
     "C08": dict(
-        kani=[],
+        kani=["c08_subgroup_keep_drop_bounded", "c08_priority_least_nested_bounded", "c08_priority_most_nested_bounded",
+              "c08_priority_top_bottom_bounded"],
         verus=["partition_tail"],
         prefixes=["C08.", "C02.partition_tail."],
         category="proof",
